@@ -13,6 +13,7 @@ from __future__ import annotations
 
 import atexit
 import gc
+import hashlib
 import os
 import shutil
 import tempfile
@@ -51,12 +52,22 @@ class _Sandbox:
         os.chdir(self.dir)
         return self
 
+    _exits = 0
+
     def __exit__(self, *a):
         os.chdir(self.cwd)
         self.conf.instance["general"]["fits"]["flip_for_ds9"] = self.old_flip
-        gc.collect()  # astropy file handles opened by the readers are closed by their finalisers
+        # astropy file handles opened by the readers are closed by their finalisers (HDUList objects sit in
+        # reference cycles): a full collection every few cases keeps the number of open handles small
+        # without paying ~30 ms per case
+        _Sandbox._exits += 1
+        if _Sandbox._exits % 16 == 0:
+            gc.collect()
         shutil.rmtree(self.dir, ignore_errors=True)
         return False
+
+    def set_flip(self, flip):
+        self.conf.instance["general"]["fits"]["flip_for_ds9"] = bool(flip)
 
     def path(self, comps, style):
         rel = os.path.join(*comps)
@@ -142,6 +153,395 @@ SPECIAL = [Fraction(-1, 2 ** 40), Fraction(1, 2 ** 200), Fraction(3 * 2 ** 90), 
            Fraction(0), Fraction(-7), Fraction(123456789.123456789)]
 
 SCALES_EXTRA = [Fraction(0.05), Fraction(0.03), Fraction(1, 1024), Fraction(7, 2), Fraction(0.1)]
+# results of ordinary float arithmetic, tiny and large scales (all exact doubles)
+SCALES_ODD = [Fraction(0.1 * 3), Fraction(0.1 + 0.2), Fraction(1.0 / 3.0), Fraction(0.07 * 7), Fraction(2e-9),
+              Fraction(1, 2 ** 20), Fraction(1.0e6), Fraction(206264.80624709636)]
+
+# round 4 (near-duplicate parameters): ways two numbers can be "equal for np.isclose / a 1e-8 test" and yet
+# be different numbers.  (name, function(base, sign) -> (a, b))
+def _card_safe(x):
+    """astropy writes a float header value with at most 20 characters (longer reprs are cut): only such pixel
+    scales survive the FILE header digit for digit (the in-memory HDU keeps the float itself)"""
+    return len(repr(float(x))) <= 20
+
+
+NEAR_KINDS = ["ulp", "ulp4", "abs1e-10", "abs4e-9", "abs9e-9", "abs2e-8", "rel1e-6", "rel1e-5", "rel2^-20",
+              "float_arith", "tiny_abs", "big_ulp"]
+
+
+def _near_pair(kind, base, sign=1):
+    """two positive doubles, different, as close as `kind` says"""
+    up = np.inf if sign > 0 else -np.inf
+    if kind == "ulp":
+        return base, float(np.nextafter(base, up))
+    if kind == "ulp4":
+        b = base
+        for _ in range(4):
+            b = float(np.nextafter(b, up))
+        return base, b
+    if kind.startswith("abs"):
+        base = max(base, 0.01)
+        return base, base + sign * float(kind[3:])
+    if kind == "rel1e-6":
+        return base, base * (1 + sign * 1e-6)
+    if kind == "rel1e-5":
+        return base, base * (1 + sign * 1e-5)
+    if kind == "rel2^-20":
+        return base, base * (1 + sign * 2.0 ** -20)
+    if kind == "float_arith":
+        return [(0.1 * 3, 0.3), (0.1 + 0.2, 0.3), (0.07 * 7, 0.49), (1.1 * 1.1, 1.21)][(1 if sign > 0 else 0)
+                                                                                     + 2 * (base > 1)]
+    if kind == "tiny_abs":  # relative difference large, absolute difference < 1e-8
+        return (3e-9, 2.5e-9) if sign > 0 else (2e-9, 1e-9)
+    if kind == "big_ulp":
+        return 1.0e6 * max(base, 0.25), float(np.nextafter(1.0e6 * max(base, 0.25), up))
+    raise ValueError(kind)
+
+
+class _Invalid(Exception):
+    """a history step that cannot be taken in the state reached (only met while shrinking)"""
+
+
+class _HistSim:
+    """Reference bookkeeping for a history case (round 4): the abstract state of the evolving object (mask,
+    numbers held, storage form, pixel scales), the flip flag in force, what every path and the last HDU hold.
+    `apply(step)` returns what the property demands the step to show: exactly what a freshly built object in
+    the current state would write / what was written comes back, orientation and pixel scale included.
+    numpy float64 arithmetic and Fractions only; never the library."""
+
+    def __init__(self, case):
+        self.obj = case["obj"]
+        self.is_mask = self.obj in ("mask2d", "mask1d")
+        self.is_2d = self.obj in ("array2d", "kernel2d", "mask2d")
+        self.flip = bool(case["flip"])
+        if self.is_2d:
+            mj = case["mask"]
+            self.mask = np.array([c == "1" for c in mj["bits"]], dtype=bool).reshape(mj["h"], mj["w"])
+        else:
+            self.mask = np.array([c == "1" for c in case["bits"]], dtype=bool)
+        self.scales = [float(Fraction(v)) for v in case["scales"]]
+        self.native = False
+        self.held = None
+        if not self.is_mask:
+            vals = np.array([float(Fraction(v)) for v in case["values"]], dtype="float64")
+            self._store(vals, bool(case.get("store_native")))
+        self.files = {}
+        self.last_hdu = None
+        self.last_read = None
+
+    # ---- state helpers
+    def _store(self, slim_vals, native):
+        if native:
+            nat = np.zeros(self.mask.shape)
+            nat[~self.mask] = slim_vals
+            self.held, self.native = nat, True
+        else:
+            self.held, self.native = np.array(slim_vals, dtype="float64"), False
+
+    def written_native(self):
+        if self.is_mask:
+            return self.mask.astype("float64")
+        if self.native:
+            return np.where(self.mask, 0.0, self.held)
+        nat = np.zeros(self.mask.shape)
+        if int((~self.mask).sum()) != self.held.size:
+            raise _Invalid("slim length")
+        nat[~self.mask] = self.held
+        return nat
+
+    def slim_values(self):
+        return qlist(self.written_native()[~self.mask]) if not self.is_mask else []
+
+    def scales_q(self):
+        return qlist(self.scales)
+
+    def held_size(self):
+        return int(self.held.size)
+
+    def mask_size(self):
+        return int(self.mask.size)
+
+    def user_scales(self, rng):
+        if rng.random() < 0.65:
+            return self.scales_q()
+        if self.is_2d:
+            return list(rng.choice([["1", "1"], ["1/2", "2"], ["3/4", "3/4"], ["1/4", "3"]]))
+        return [rng.choice(["1", "1/2", "3"])]
+
+    def random_mask_key(self, rng):
+        if self.is_2d:
+            return [rng.randrange(self.mask.shape[0]), rng.randrange(self.mask.shape[1])]
+        return rng.randrange(self.mask.shape[0])
+
+    def random_key(self, rng):
+        if self.held.ndim == 2:
+            return [rng.randrange(self.held.shape[0]), rng.randrange(self.held.shape[1])]
+        return rng.randrange(self.held.shape[0])
+
+    def random_masked_key(self, rng):
+        if not self.native or not self.mask.any():
+            return None
+        pos = np.argwhere(self.mask)
+        p = pos[rng.randrange(len(pos))]
+        return [int(v) for v in p] if self.is_2d else int(p[0])
+
+    def _snapshot(self):
+        s = {"mask": self.mask.copy(), "scales": list(self.scales), "native": self.native}
+        if not self.is_mask:
+            s["held"] = self.held.copy()
+        return s
+
+    def _rec(self):
+        nat = self.written_native()
+        data = np.flipud(nat) if (self.flip and self.is_2d) else nat
+        return {"data": np.array(data, dtype="float64"), "scales": list(self.scales), "flipw": self.flip,
+                "state": self._snapshot()}
+
+    def _hdu_obs(self, rec):
+        return {"data": _data_json(rec["data"]), "header": qlist(rec["scales"])}
+
+    def _read(self, rec, user_scales=None, invert=False):
+        data = rec["data"]
+        nat = np.flipud(data) if (self.flip and self.is_2d) else data
+        scales = list(rec["scales"]) if user_scales is None else [float(Fraction(v)) for v in user_scales]
+        if self.is_2d and len(scales) == 1:
+            scales = scales * 2
+        if self.obj in ("array2d", "kernel2d"):
+            h, w = nat.shape
+            obs = {"shape": [h, w], "native": qlist(nat.ravel()), "slim": qlist(nat.ravel()),
+                   "mask_bits": "0" * (h * w), "scales": qlist(scales)}
+            st = {"mask": np.zeros((h, w), dtype=bool), "scales": scales, "native": False,
+                  "held": np.array(nat.ravel(), dtype="float64")}
+        elif self.obj == "mask2d":
+            b = nat != 0
+            if invert:
+                b = ~b
+            h, w = b.shape
+            obs = {"mask": {"h": h, "w": w, "bits": "".join("1" if v else "0" for v in b.ravel())},
+                   "scales": qlist(scales)}
+            st = {"mask": b.copy(), "scales": scales, "native": False}
+        elif self.obj == "array1d":
+            obs = {"native": qlist(nat), "scales": qlist(scales)}
+            st = {"mask": np.zeros(nat.shape, dtype=bool), "scales": scales, "native": False,
+                  "held": np.array(nat, dtype="float64")}
+        else:
+            b = nat != 0
+            obs = {"bits": "".join("1" if v else "0" for v in b), "scales": qlist(scales)}
+            st = {"mask": b.copy(), "scales": scales, "native": False}
+        if user_scales is not None and not self.is_mask:
+            obs["file_header"] = qlist(rec["scales"])
+        self.last_read = st
+        return obs
+
+    # ---- one step
+    def apply(self, st):
+        op = st["op"]
+        if op == "hdu":
+            self.last_hdu = self._rec()
+            return self._hdu_obs(self.last_hdu)
+        if op == "hdu_data":
+            if self.last_hdu is None:
+                raise _Invalid("no hdu")
+            return self._hdu_obs(self.last_hdu)
+        if op == "read_hdu":
+            if self.last_hdu is None:
+                raise _Invalid("no hdu")
+            return self._read(self.last_hdu)
+        if op == "write":
+            key = "/".join(st["path"])
+            if key in self.files and not st["overwrite"]:
+                return "exists_no_overwrite"
+            self.files[key] = self._rec()
+            return "written"
+        if op == "write_hdu":
+            if self.last_hdu is None:
+                raise _Invalid("no hdu")
+            self.files["/".join(st["path"])] = self.last_hdu
+            return "written"
+        if op == "read":
+            rec = self.files.get("/".join(st["path"]))
+            if rec is None:
+                raise _Invalid("no such file")
+            return self._read(rec, user_scales=st["scales"], invert=bool(st.get("invert")))
+        if op == "bad_read":
+            if st["what"] == "missing":
+                return "FileNotFoundError"
+            if "/".join(st["path"]) not in self.files:
+                raise _Invalid("no such file")
+            return "IndexError"
+        if op == "set_flip":
+            self.flip = bool(st["flip"])
+            return None
+        if op == "decoy":
+            return None
+        if op == "edit":
+            if self.is_mask:
+                raise _Invalid("edit on a mask")
+            k = st["key"]
+            try:
+                if isinstance(k, list):
+                    if self.held.ndim != 2:
+                        raise _Invalid("key")
+                    self.held[k[0], k[1]] = float(Fraction(st["value"]))
+                else:
+                    if self.held.ndim != 1:
+                        raise _Invalid("key")
+                    self.held[k] = float(Fraction(st["value"]))
+            except IndexError:
+                raise _Invalid("key")
+            return None
+        if op == "edit_where":
+            if self.is_mask or len(st["bits"]) != self.held.size:
+                raise _Invalid("key")
+            key = np.array([c == "1" for c in st["bits"]], dtype=bool).reshape(self.held.shape)
+            self.held = np.where(key, float(Fraction(st["value"])), self.held)
+            return None
+        if op == "edit_mask":
+            if not self.is_mask and not self.native:
+                raise _Invalid("mask edit under a slim-stored array")
+            k = st["key"]
+            try:
+                if isinstance(k, list):
+                    self.mask[k[0], k[1]] = bool(st["value"])
+                else:
+                    self.mask[k] = bool(st["value"])
+            except IndexError:
+                raise _Invalid("key")
+            return None
+        if op == "derive":
+            if self.is_mask:
+                raise _Invalid("derive on a mask")
+            how = st["how"]
+            c = float(Fraction(st["c"])) if "c" in st else None
+            if how in ("add", "radd"):
+                self.held = self.held + c
+            elif how == "sub":
+                self.held = self.held - c
+            elif how == "mul":
+                self.held = self.held * c
+            elif how == "neg":
+                self.held = -self.held
+            elif how in ("native", "native_add"):
+                self.held, self.native = self.written_native(), True
+                if how == "native_add":
+                    self.held = self.held + c
+            elif how == "slim":
+                self.held, self.native = self.written_native()[~self.mask], False
+            elif how == "copy":
+                pass
+            elif how == "with_new_array":
+                if len(st["new"]) != self.held.size:
+                    raise _Invalid("size")
+                self.held = np.array([float(Fraction(v)) for v in st["new"]],
+                                     dtype="float64").reshape(self.held.shape)
+            elif how == "apply_mask":
+                if not self.is_2d or len(st["bits"]) != self.mask.size:
+                    raise _Invalid("apply_mask")
+                nat = self.written_native()
+                self.mask = np.array([c == "1" for c in st["bits"]], dtype=bool).reshape(self.mask.shape)
+                self.held, self.native = nat[~self.mask], False
+                self.scales = [float(Fraction(v)) for v in st["scales"]]
+            else:
+                raise _Invalid(how)
+            return None
+        if op == "twin":
+            if "scales" in st:
+                self.scales = [float(Fraction(v)) for v in st["scales"]]
+            if self.is_mask:
+                if "flip_bit" in st:
+                    k = st["flip_bit"]
+                    try:
+                        if isinstance(k, list):
+                            self.mask[k[0], k[1]] = not self.mask[k[0], k[1]]
+                        else:
+                            self.mask[k] = not self.mask[k]
+                    except IndexError:
+                        raise _Invalid("key")
+                self.mask = self.mask.copy()
+                return None
+            if "values" in st:
+                vals = np.array([float(Fraction(v)) for v in st["values"]], dtype="float64")
+                if vals.size != int((~self.mask).sum()):
+                    raise _Invalid("size")
+            else:
+                vals = self.written_native()[~self.mask]
+            self.mask = self.mask if st.get("share_mask") else self.mask.copy()
+            self._store(vals, self.native or self.held.shape == self.mask.shape)
+            return None
+        if op == "adopt":
+            if self.last_read is None:
+                raise _Invalid("nothing read")
+            s = self.last_read
+            self.mask, self.scales, self.native = s["mask"].copy(), list(s["scales"]), s["native"]
+            if not self.is_mask:
+                self.held = s["held"].copy()
+            return None
+        raise _Invalid(op)
+
+    @classmethod
+    def valid(cls, case):
+        try:
+            sim = cls(case)
+            for st in case["steps"]:
+                sim.apply(st)
+            return True
+        except (_Invalid, KeyError, ValueError, IndexError):
+            return False
+
+    # ---- the Lean model's request for a fresh object in a recorded state
+    def model_request(self, rec, flip_now, read_step):
+        s = rec["state"]
+        mask = s["mask"]
+        if self.is_mask:
+            if self.is_2d:
+                r = {"op": "c16.mask2d", "mask": mask_json(mask.tolist()), "scales": qlist(rec["scales"]),
+                     "flip": rec["flipw"], "flip_read": bool(flip_now)}
+                if read_step is not None and read_step.get("invert"):
+                    r["invert"] = True
+                return r
+            return {"op": "c16.mask1d", "bits": "".join("1" if v else "0" for v in mask),
+                    "scale": q(rec["scales"][0])}
+        if s["native"]:
+            nat = np.where(mask, 0.0, s["held"])
+        else:
+            nat = np.zeros(mask.shape)
+            nat[~mask] = s["held"]
+        if self.is_2d:
+            r = {"op": "c16.array2d", "mask": mask_json(mask.tolist()), "values": qlist(nat[~mask]),
+                 "scales": qlist(rec["scales"]), "flip": rec["flipw"], "flip_read": bool(flip_now)}
+            if s["native"]:
+                r["stored_native"] = qlist(s["held"].ravel())
+            if read_step is not None:
+                sc = list(read_step["scales"])
+                r["read_scales"] = sc * 2 if len(sc) == 1 else sc
+            return r
+        r = {"op": "c16.array1d", "bits": "".join("1" if v else "0" for v in mask), "values": qlist(nat[~mask]),
+             "scale": q(rec["scales"][0])}
+        if s["native"]:
+            r["stored_native"] = qlist(s["held"])
+        return r
+
+
+def _hist_diff(got, want):
+    """None when the observation of a history step is what the property demands, else what differs"""
+    if not isinstance(want, dict):
+        return None if got == want else f"outcome {got!r}, expected {want!r}"
+    if not isinstance(got, dict):
+        return f"outcome {got!r}, expected an observation"
+    for k, w in want.items():
+        g = got.get(k)
+        if k in ("header", "file_header"):
+            dec = C16._scales_from_cards(g) if g is not None else None
+            ws = [Fraction(v) for v in w]
+            if dec is None or dec[: len(ws)] != ws:
+                return (f"the {k} encodes pixel scales {[float(v) for v in dec] if dec else dec}, "
+                        f"written {[float(v) for v in ws]}")
+            continue
+        if g != w:
+            if k in ("data", "native", "slim"):
+                return f"{k} differs: got {str(g)[:160]} expected {str(w)[:160]}"
+            return f"{k} is {str(g)[:120]}, expected {str(w)[:120]}"
+    return None
 
 
 class C16(PropertyCheck):
@@ -151,7 +551,8 @@ class C16(PropertyCheck):
         "round-trip cases are non-trivial when the content is not invariant under a vertical flip, or the "
         "array is held in native form with non-zero values under the mask, "
         "(>= 2 rows with different content) or the shape is degenerate (1xN / Nx1) or the object is "
-        "1-D; history cases when at least one call targets an existing path; distinct = distinct case"
+        "1-D; history cases when at least one call targets an existing path; reuse histories (round 4) with "
+        ">= 2 observing steps; distinct = distinct case"
     )
     exhaustive_note = {
         "quick": "every shape 1..4 x 1..4 x flip x {array,kernel,mask} (one structured content each); "
@@ -204,6 +605,10 @@ class C16(PropertyCheck):
         "values are finite float64 numbers (NaN / inf are outside the property's 'real values')",
         "target paths are regular files or absent and their parents are directories or absent (a directory "
         "as target, or a regular file as parent, is outside the property)",
+        "pixel scales are doubles whose shortest decimal form has at most 20 characters: astropy cuts longer "
+        "float values when it formats a header card, so e.g. 0.0009765624999999999 comes back from a FILE's header "
+        "one digit short (the in-memory HDU route is exact for every double; from_fits takes the scales from the "
+        "caller, not from the header)",
     ]
 
     # ------------------------------------------------------------------ generation
@@ -214,7 +619,19 @@ class C16(PropertyCheck):
     def _values_raw(self, rng, n, style=None):
         if n == 0:
             return []
-        style = style or rng.choice(["distinct", "distinct", "dyadic", "special", "mixed"])
+        style = style or rng.choice(["distinct", "distinct", "dyadic", "special", "mixed", "neardup"])
+        if style == "neardup":
+            # round 4: all values inside np.allclose's tolerance of one another (and of a constant array),
+            # pairwise different: consecutive doubles / steps of 1e-9 relative
+            b = float(rng.choice([1.0, -3.5, 0.1, 1.0e-9, 123456.789, -0.30000000000000004]))
+            out = []
+            for _ in range(n):
+                out.append(Fraction(b))
+                b = float(np.nextafter(b, np.inf)) if rng.random() < 0.6 else b * (1 + 3e-10) + 0.0
+                if Fraction(b) == out[-1]:
+                    b = float(np.nextafter(b, np.inf))
+            rng.shuffle(out)
+            return out
         if style == "distinct":
             return [Fraction(v) for v in gen.distinct_ints(rng, n)]
         if style == "dyadic":
@@ -230,9 +647,39 @@ class C16(PropertyCheck):
         pool = gen.SCALES + SCALES_EXTRA
         if aniso is None:
             aniso = rng.random() < 0.5
-        sy = rng.choice(pool)
+            if rng.random() < 0.22:
+                # round 4: NEARLY isotropic — the two scales differ by far less than any "close enough"
+                # tolerance (1 ulp … 1e-5 relative, < 1e-8 absolute) but are different numbers
+                return self._near_scales(rng)
+        sy = rng.choice(pool + (SCALES_ODD if rng.random() < 0.3 else []))
         sx = rng.choice([s for s in pool if s != sy]) if aniso else sy
         return [q(sy), q(sx)]
+
+    def _near_scales(self, rng, kind=None, sign=None, swap=None):
+        kind = kind or rng.choice(NEAR_KINDS)
+        sign = sign if sign is not None else rng.choice([1, -1])
+        swap = swap if swap is not None else rng.random() < 0.5
+        pool = [float(v) for v in gen.SCALES + SCALES_EXTRA + SCALES_ODD]
+        rng.shuffle(pool)
+        for base in pool + [0.3, 0.25]:
+            a, b = _near_pair(kind, base, sign)
+            if a != b and a > 0 and b > 0 and _card_safe(a) and _card_safe(b):
+                break
+        else:
+            a, b = 0.3, 0.1 * 3
+        return [q(b), q(a)] if swap else [q(a), q(b)]
+
+    @staticmethod
+    def _safe_near(rng, x):
+        """a different positive double close to x (inside np.isclose's tolerance) that a FITS card can hold"""
+        kinds = ["rel1e-6", "rel1e-5", "ulp", "abs1e-10", "abs4e-9", "rel2^-20"]
+        rng.shuffle(kinds)
+        for kind in kinds:
+            for sign in rng.sample([1, -1], 2):
+                y = _near_pair(kind, x, sign)[1] if not kind.startswith("abs") else x + sign * float(kind[3:])
+                if y > 0 and y != x and _card_safe(y):
+                    return y
+        return x * (1 + 2.0 ** -20)
 
     def _junk_arr_case(self, rng, m, tag, kind=None, flip=None, mode=None):
         """a MASKED array held in NATIVE form whose underlying ndarray is non-zero at masked pixels:
@@ -436,10 +883,40 @@ class C16(PropertyCheck):
                    "noise": qlist([Fraction(v, 4) for v in gen.distinct_ints(rng, h * w, signed=False)]),
                    "psf_shape": [kh, kw], "scales": self._scales(rng),
                    "path_style": rng.choice(["abs", "rel", "bare", "nested"]),
-                   "with_psf": rng.random() < 0.8, "victim": rng.choice(["data", "psf", "noise"])}
+                   "with_psf": rng.random() < 0.8, "victim": rng.choice(["data", "psf", "noise"]),
+                   # round 4: the dataset's arrays are edited in place between the failed and the overwriting call
+                   **({"edit": {"data": [rng.randrange(h * w), q(Fraction(rng.randint(-99, 99), 4))],
+                                "noise": [rng.randrange(h * w), q(Fraction(rng.randint(1, 99), 4))]}}
+                      if rng.random() < 0.6 else {})}
         # 6. histories of output_to_fits calls
         for _ in range(80 if tier == "quick" else 800):
             yield self._history_case(rng)
+        # 7. (round 4) nearly isotropic pixel scales: every way of being "close", both signs, on every writer
+        k = 0
+        for kind in NEAR_KINDS:
+            for sign in (1, -1):
+                for obj in ("array2d", "kernel2d", "mask2d"):
+                    k += 1
+                    h, w = rng.randint(1, 3), rng.randint(2, 3)
+                    sc = self._near_scales(rng, kind=kind, sign=sign, swap=bool(k % 2))
+                    if obj == "mask2d":
+                        c = self._mask_case(rng, self._structured_mask(rng, h, w), "near_iso_mask", flip=bool(k & 2))
+                    else:
+                        c = self._arr_case(rng, self._structured_mask(rng, h, w) if obj == "array2d"
+                                           else gen.full(h, w, False), "near_iso_" + obj, kind=obj, flip=bool(k & 2))
+                    c["scales"] = sc
+                    yield c
+        for kind in NEAR_KINDS[::3]:
+            arrays = []
+            for j in range(2):
+                m, _mk = gen.random_mask(rng, rng.randint(1, 3), rng.randint(1, 3))
+                nun = sum(1 for r in m for b in r if not b)
+                arrays.append({"mask": mask_json(m), "values": qlist(self._values(rng, nun)),
+                               "scales": self._near_scales(rng, kind=kind)})
+            yield {"tag": "near_iso_multi_hdu", "kind": "multi_hdu", "flip": rng.random() < 0.5, "arrays": arrays,
+                   "read": rng.randrange(2), "scales": self._near_scales(rng), "reader": "array2d"}
+        # 8. (round 4) reuse histories on real objects
+        yield from self._gen_hist(tier, rng)
 
     PATHS = [["a.fits"], ["b.fits"], ["d1", "a.fits"], ["d1", "b.fits"], ["d1", "d2", "a.fits"],
              ["d3", "d4", "d5", "c.fits"], ["d1", "d2", "c.fits"], ["d6", "a.fits"]]
@@ -465,6 +942,1058 @@ class C16(PropertyCheck):
         return {"tag": "fs_history", "kind": "fs_history", "flip": rng.random() < 0.5,
                 "dirs": init_dirs, "files": init_files, "steps": steps,
                 "path_style": rng.choice(["abs", "rel"])}
+
+    # ================================================================== round 4: HISTORY stream
+    # A history case drives ONE evolving object (Array2D / Kernel2D / Mask2D / Array1D / Mask1D) through a
+    # typed sequence of public-API steps; every observing step is compared with what a FRESH object in the
+    # state reached so far must give (`_HistSim`, numpy/Fractions only — never the code under test) and with
+    # the Lean model's answer for that fresh object.
+    HIST_PATHS = [["a.fits"], ["b.fits"], ["d1", "a.fits"], ["d1", "d2", "c.fits"], ["e.fits"]]
+
+    def _hist_base(self, rng, obj, tag, small=True):
+        flip = rng.random() < 0.5
+        c = {"tag": tag, "kind": "hist", "obj": obj, "flip": flip, "path_style": rng.choice(["abs", "rel"])}
+        if obj in ("array1d", "mask1d"):
+            ln = rng.randint(2, 6)
+            mask = [rng.random() < 0.35 for _ in range(ln)]
+            if all(mask):
+                mask[rng.randrange(ln)] = False
+            if obj == "array1d" and not any(mask) and rng.random() < 0.7:
+                mask[rng.randrange(ln)] = True
+            c["bits"] = "".join("1" if b else "0" for b in mask)
+            c["scales"] = [self._scales(rng, False)[0]]
+            if obj == "array1d":
+                c["values"] = qlist(self._values(rng, mask.count(False), rng.choice(["distinct", "dyadic"])))
+                c["store_native"] = rng.random() < 0.5
+            return c
+        h, w = rng.randint(1, 4), rng.randint(1, 4)
+        if h * w == 1:
+            h = 2
+        if obj == "kernel2d" and rng.random() < 0.5:
+            m = gen.full(h, w, False)
+        else:
+            m = self._structured_mask(rng, h, w)
+            if not any(b for r in m for b in r) and rng.random() < 0.7:
+                m[rng.randrange(h)][rng.randrange(w)] = True
+            if all(b for r in m for b in r):
+                m[0][0] = False
+        c["mask"] = mask_json(m)
+        c["scales"] = self._scales(rng)
+        if obj != "mask2d":
+            n = sum(1 for r in m for b in r if not b)
+            c["values"] = qlist(self._values(rng, n, rng.choice(["distinct", "dyadic"])))
+            c["store_native"] = rng.random() < 0.5
+        return c
+
+    def _perturbed(self, rng, vals, how=None):
+        """near-duplicate of a list of doubles: inside np.allclose's default tolerance (rtol 1e-5, atol 1e-8),
+        far outside the property's exactness"""
+        how = how or rng.choice(["rel1e-6_all", "rel1e-6_one", "ulp_one", "abs1e-10_one", "rel1e-5_some"])
+        out = [float(Fraction(v)) for v in vals]
+        idx = list(range(len(out)))
+        if not idx:
+            return []
+        if how.endswith("_one"):
+            idx = [rng.randrange(len(out))]
+        elif how.endswith("_some"):
+            idx = [i for i in idx if rng.random() < 0.5] or [0]
+        for i in idx:
+            v = out[i]
+            if how.startswith("rel1e-6"):
+                nv = v * (1 + 1e-6) if v != 0 else 1e-10
+            elif how.startswith("rel1e-5"):
+                nv = v * (1 - 9e-6) if v != 0 else -1e-10
+            elif how.startswith("ulp"):
+                nv = float(np.nextafter(v, np.inf))
+            else:
+                nv = v + 1e-10
+            out[i] = nv
+        return qlist(out)
+
+    def _hist_case(self, rng, theme=None, obj=None):
+        theme = theme or rng.choice(self.HIST_THEMES)
+        if obj is None:
+            obj = rng.choice(["array2d", "array2d", "array2d", "kernel2d", "mask2d", "array1d", "mask1d"])
+        if theme in ("derive", "junk_routes") and obj in ("mask2d", "mask1d"):
+            obj = "array2d"
+        c = self._hist_base(rng, obj, "hist_" + theme)
+        sim = _HistSim(c)
+        steps = []
+
+        def add(**st):
+            steps.append(st)
+            sim.apply(st)
+
+        P = [list(p) for p in rng.sample(self.HIST_PATHS, 3)]
+        is_mask = obj in ("mask2d", "mask1d")
+        is_2d = obj in ("array2d", "kernel2d", "mask2d")
+
+        def rd(path, **kw):
+            st = {"op": "read", "path": path}
+            st["scales"] = kw.pop("scales", None) or sim.user_scales(rng)
+            if obj == "mask2d" and rng.random() < 0.4:
+                st["invert"] = True
+            st.update(kw)
+            add(**st)
+
+        def edit():
+            if is_mask:
+                add(op="edit_mask", key=sim.random_mask_key(rng), value=rng.random() < 0.5)
+            elif rng.random() < 0.25:
+                add(op="edit_where", bits="".join(rng.choice("01") for _ in range(sim.held_size())),
+                    value=q(Fraction(rng.randint(-60, 60), 4)))
+            else:
+                add(op="edit", key=sim.random_key(rng), value=q(Fraction(rng.randint(-200, 200), 8)))
+
+        def twin(what=None):
+            what = what or rng.choice(["values", "scales", "both"] if not is_mask else ["scales", "bits"])
+            st = {"op": "twin", "share_mask": rng.random() < 0.6}
+            if what in ("values", "both"):
+                st["values"] = self._perturbed(rng, sim.slim_values())
+            if what in ("scales", "both"):
+                sc = [float(Fraction(v)) for v in sim.scales_q()]
+                k = rng.randrange(len(sc))
+                sc[k] = self._safe_near(rng, sc[k])
+                st["scales"] = qlist(sc)
+                st["share_mask"] = False
+            if what == "bits":
+                st["flip_bit"] = sim.random_mask_key(rng)
+                st["share_mask"] = False
+            add(**st)
+
+        def derive(how=None):
+            if is_mask:
+                return
+            how = how or rng.choice(["add", "sub", "mul", "neg", "native", "slim", "copy", "with_new_array",
+                                     "radd", "apply_mask", "native_add"])
+            if how == "apply_mask" and not is_2d:
+                how = "add"
+            st = {"op": "derive", "how": how}
+            if how in ("add", "sub", "radd", "native_add"):
+                st["c"] = q(Fraction(rng.choice([2, -3, 5, 12, -1]), rng.choice([1, 2, 4])))
+            elif how == "mul":
+                st["c"] = q(rng.choice([Fraction(2), Fraction(-1, 2), Fraction(4), Fraction(3)]))
+            elif how == "with_new_array":
+                st["new"] = qlist([Fraction(rng.randint(-99, 99), 4) for _ in range(sim.held_size())])
+            elif how == "apply_mask":
+                bits = [rng.random() < 0.4 for _ in range(sim.mask_size())]
+                if all(bits):
+                    bits[rng.randrange(len(bits))] = False
+                st["bits"] = "".join("1" if b else "0" for b in bits)
+                st["scales"] = self._scales(rng)
+            add(**st)
+
+        if theme == "edit_rewrite":
+            add(op="hdu")
+            add(op="write", path=P[0], overwrite=False)
+            rd(P[0])
+            edit()
+            add(op="hdu")
+            add(op="read_hdu")
+            add(op="write", path=P[0], overwrite=True)
+            rd(P[0])
+            if rng.random() < 0.5:
+                edit()
+            add(op="write", path=P[1], overwrite=rng.random() < 0.5)
+            rd(P[1])
+            rd(P[0])
+        elif theme == "twin":
+            if rng.random() < 0.5:
+                add(op="decoy")
+            add(op="hdu")
+            add(op="read_hdu")
+            add(op="write", path=P[0], overwrite=False)
+            rd(P[0])
+            twin()
+            add(op="hdu")
+            add(op="read_hdu")
+            add(op="write", path=P[0], overwrite=True)
+            rd(P[0])
+            sc = sim.user_scales(rng)
+            rd(P[0], scales=sc)
+            # the same read again with the user-supplied scales perturbed inside np.allclose's tolerance
+            sc2 = [float(Fraction(v)) for v in sc]
+            sc2[rng.randrange(len(sc2))] *= (1 + rng.choice([1e-6, -1e-6, 9e-6]))
+            rd(P[0], scales=qlist(sc2))
+            twin()
+            add(op="write", path=P[1], overwrite=False)
+            rd(P[1])
+            add(op="hdu")
+        elif theme == "fault_reuse":
+            add(op="write", path=P[0], overwrite=False)
+            add(op="write", path=P[0], overwrite=False)  # must fail: the target exists
+            add(op="hdu")
+            add(op="read_hdu")
+            add(op="bad_read", what="missing")
+            rd(P[0])
+            if not is_mask:
+                edit()
+            add(op="write", path=P[0], overwrite=False)  # fails again; the object was edited in between
+            add(op="write", path=P[1], overwrite=False)
+            rd(P[1])
+            add(op="bad_read", what="hdu_index", path=P[1])
+            rd(P[1])
+            rd(P[0])
+            add(op="write", path=P[0], overwrite=True)
+            rd(P[0])
+            add(op="hdu")
+        elif theme == "two_flips":
+            add(op="hdu")
+            add(op="set_flip", flip=not sim.flip)
+            add(op="read_hdu")
+            add(op="hdu")
+            add(op="write", path=P[0], overwrite=False)
+            add(op="set_flip", flip=not sim.flip)
+            rd(P[0])
+            add(op="read_hdu")
+            add(op="write", path=P[1], overwrite=False)
+            add(op="hdu")
+            add(op="set_flip", flip=not sim.flip)
+            rd(P[1])
+            rd(P[0])
+            add(op="read_hdu")
+        elif theme == "decoy_order":
+            add(op="decoy")
+            if rng.random() < 0.5:
+                add(op="write", path=P[0], overwrite=False)
+                add(op="hdu")
+            else:
+                add(op="hdu")
+                add(op="write", path=P[0], overwrite=False)
+            rd(P[0])
+            add(op="read_hdu")
+            add(op="decoy")
+            edit()
+            add(op="hdu")
+            add(op="write", path=P[1], overwrite=False)
+            rd(P[1])
+        elif theme == "derive":
+            for _ in range(rng.randint(2, 4)):
+                if rng.random() < 0.5:
+                    add(op="decoy")
+                derive()
+                add(op="hdu")
+                if rng.random() < 0.5:
+                    add(op="read_hdu")
+            add(op="write", path=P[0], overwrite=False)
+            rd(P[0])
+            derive()
+            add(op="write", path=P[0], overwrite=True)
+            rd(P[0])
+        elif theme == "junk_routes":
+            # every way a masked array held in native form gets non-zero numbers under its mask
+            if not sim.native:
+                add(op="derive", how="native")
+            how = rng.choice(["add", "sub", "radd", "with_new_array", "edit_masked", "edit_where", "neg_add"])
+            if how == "edit_masked":
+                k = sim.random_masked_key(rng)
+                if k is None:
+                    derive("add")
+                else:
+                    add(op="edit", key=k, value=q(Fraction(rng.randint(1, 99), 2)))
+            elif how == "edit_where":
+                add(op="edit_where", bits="1" * sim.held_size(), value=q(Fraction(rng.randint(1, 99), 2)))
+            elif how == "neg_add":
+                derive("add")
+                derive("neg")
+            else:
+                derive(how)
+            if rng.random() < 0.5:
+                add(op="write", path=P[0], overwrite=False)
+                rd(P[0])
+                add(op="hdu")
+            else:
+                add(op="hdu")
+                add(op="read_hdu")
+                add(op="write", path=P[0], overwrite=False)
+                rd(P[0])
+        elif theme == "shared_hdu":
+            add(op="hdu")
+            add(op="read_hdu")
+            add(op="hdu_data")
+            add(op="read_hdu")
+            add(op="write_hdu", path=P[0])
+            rd(P[0])
+            add(op="hdu_data")
+            add(op="read_hdu")
+            add(op="write", path=P[1], overwrite=False)
+            rd(P[1])
+        elif theme == "adopt_chain":
+            add(op="write", path=P[0], overwrite=False)
+            rd(P[0])
+            add(op="adopt")
+            if rng.random() < 0.6:
+                edit()
+            add(op="hdu")
+            add(op="write", path=P[1], overwrite=False)
+            rd(P[1])
+            add(op="read_hdu")
+            add(op="adopt")
+            add(op="hdu")
+            add(op="write", path=P[0], overwrite=True)
+            rd(P[0])
+        elif theme == "mask_edit":
+            add(op="hdu")
+            add(op="write", path=P[0], overwrite=False)
+            if is_mask:
+                add(op="edit_mask", key=sim.random_mask_key(rng), value=rng.random() < 0.5)
+                add(op="edit_mask", key=sim.random_mask_key(rng), value=rng.random() < 0.5)
+            elif sim.native:
+                add(op="edit_mask", key=sim.random_mask_key(rng), value=rng.random() < 0.7)
+            else:
+                edit()
+            add(op="hdu")
+            add(op="read_hdu")
+            add(op="write", path=P[0], overwrite=True)
+            rd(P[0])
+        else:  # "random": any valid sequence
+            for _ in range(rng.randint(5, 10)):
+                r = rng.random()
+                if r < 0.2:
+                    add(op="hdu")
+                elif r < 0.32 and sim.last_hdu is not None:
+                    add(op="read_hdu")
+                elif r < 0.5:
+                    p = rng.choice(P)
+                    add(op="write", path=p, overwrite=rng.random() < 0.6)
+                elif r < 0.65 and sim.files:
+                    rd(rng.choice(sorted(sim.files)).split("/"))
+                elif r < 0.75:
+                    edit()
+                elif r < 0.82:
+                    add(op="set_flip", flip=rng.random() < 0.5)
+                elif r < 0.9:
+                    derive()
+                elif r < 0.95:
+                    twin()
+                else:
+                    add(op="decoy")
+            add(op="hdu")
+            if sim.files:
+                rd(rng.choice(sorted(sim.files)).split("/"))
+        c["steps"] = steps
+        return c
+
+    HIST_THEMES = ["edit_rewrite", "twin", "fault_reuse", "two_flips", "decoy_order", "derive", "junk_routes",
+                   "shared_hdu", "adopt_chain", "mask_edit", "random"]
+
+    def _gen_hist(self, tier, rng):
+        # every theme × every object class once (independent of luck), then random ones
+        for theme in self.HIST_THEMES:
+            for obj in ("array2d", "kernel2d", "mask2d", "array1d", "mask1d"):
+                if theme in ("derive", "junk_routes") and obj in ("mask2d", "mask1d"):
+                    continue
+                yield self._hist_case(rng, theme, obj)
+        for _ in range(400 if tier == "quick" else 1500):
+            yield self._hist_case(rng)
+
+    # ------------------------------------------------------------------ history: the real code
+    _DECOYS_ARR = ["native", "slim", "native_skip_mask", "pixel_scales", "pixel_scale", "pixel_scale_header",
+                   "shape_native", "shape_slim", "binned_across_rows", "binned_across_columns", "readout_offsets",
+                   "geometry", "derive_mask", "derive_indexes", "origin", "total_pixels", "hdu_for_output",
+                   "values", "array", "header", "mask", "store_native", "in_counts", "original_orientation",
+                   "grid_radial", "unmasked_grid", "total_area", "dimensions"]
+    _DECOYS_MASK = ["pixel_scales", "pixel_scale", "pixel_scale_header", "shape_native", "shape_slim", "geometry",
+                    "derive_mask", "derive_indexes", "derive_grid", "origin", "pixels_in_mask", "is_all_true",
+                    "is_all_false", "mask_centre", "zoom_centre", "zoom_shape_native", "dimensions",
+                    "hdu_for_output", "is_circular", "shape", "mask", "array", "zoom_offset_pixels",
+                    "zoom_mask_unmasked"]
+
+    def _hist_readers(self, aa, obj):
+        return {"array2d": aa.Array2D, "kernel2d": aa.Kernel2D, "mask2d": aa.Mask2D, "array1d": aa.Array1D,
+                "mask1d": aa.Mask1D}[obj]
+
+    def _hist_obs_read(self, obj, b):
+        if obj in ("array2d", "kernel2d"):
+            return _read2d(b)
+        if obj == "mask2d":
+            return {"mask": _mask_obs(b), "scales": qlist(b.pixel_scales)}
+        if obj == "array1d":
+            return {"native": qlist(np.asarray(b.native.array, dtype="float64")), "scales": qlist(b.pixel_scales)}
+        return {"bits": "".join("1" if v else "0" for v in np.asarray(b)), "scales": qlist(b.pixel_scales)}
+
+    def _hist_build(self, aa, case, mask_obj=None, values=None, scales=None, bits=None):
+        """the initial object of a history (or a twin of it): returns (object, mask object, caller-owned buffer)"""
+        obj = case["obj"]
+        if obj in ("array1d", "mask1d"):
+            b = np.array([ch == "1" for ch in (bits or case["bits"])], dtype=bool)
+            s = _f((scales or case["scales"])[0])
+            m1 = mask_obj if mask_obj is not None else aa.Mask1D(mask=b, pixel_scales=s)
+            if obj == "mask1d":
+                return m1, m1, None
+            vals = np.array([_f(v) for v in (values if values is not None else case["values"])], dtype="float64")
+            if case.get("store_native"):
+                nat = np.full(b.shape, 77.0)
+                nat[~b] = vals
+                return aa.Array1D(values=nat, mask=m1, store_native=True), m1, nat
+            return aa.Array1D(values=vals, mask=m1), m1, vals
+        mj = case["mask"]
+        m = np.array([ch == "1" for ch in (bits or mj["bits"])], dtype=bool).reshape(mj["h"], mj["w"])
+        sc = tuple(_f(v) for v in (scales or case["scales"]))
+        mask = mask_obj if mask_obj is not None else aa.Mask2D(mask=m, pixel_scales=sc)
+        if obj == "mask2d":
+            return mask, mask, None
+        cls = aa.Kernel2D if obj == "kernel2d" else aa.Array2D
+        vals = np.array([_f(v) for v in (values if values is not None else case["values"])], dtype="float64")
+        if case.get("store_native"):
+            nat = np.full(m.shape, 77.0)
+            nat[~m] = vals
+            return cls(values=nat, mask=mask, store_native=True), mask, nat
+        return cls(values=vals, mask=mask), mask, vals
+
+    def _impl_hist(self, aa, case, sb):
+        from astropy.io import fits
+
+        obj = case["obj"]
+        reader = self._hist_readers(aa, obj)
+        is_mask = obj in ("mask2d", "mask1d")
+        is_2d = obj in ("array2d", "kernel2d", "mask2d")
+        a, mask_obj, buf = self._hist_build(aa, case)
+        style = case["path_style"]
+        last_hdu = last_read = None
+        out = []
+        intact = True
+        for st in case["steps"]:
+            op = st["op"]
+            o = None
+            # the caller's array may legitimately be written THROUGH the object (`a[k] = v` on an object that
+            # holds it, that is property C11's subject); no output / read / derivation may touch it
+            buf0 = buf.copy() if (buf is not None and op not in ("edit", "edit_where", "edit_mask")) else None
+            if op == "hdu":
+                last_hdu = a.hdu_for_output
+                o = {"data": _data_json(last_hdu.data), "header": _cards(last_hdu.header)}
+            elif op == "hdu_data":
+                o = {"data": _data_json(last_hdu.data), "header": _cards(last_hdu.header)}
+            elif op == "read_hdu":
+                last_read = reader.from_primary_hdu(last_hdu)
+                o = self._hist_obs_read(obj, last_read)
+            elif op == "write":
+                try:
+                    a.output_to_fits(file_path=sb.path(st["path"], style), overwrite=st["overwrite"])
+                    o = "written"
+                except Exception as e:
+                    o = _err_kind(e)
+            elif op == "write_hdu":
+                pth = sb.path(st["path"], "abs")
+                os.makedirs(os.path.dirname(pth), exist_ok=True)
+                fits.HDUList([last_hdu]).writeto(pth, overwrite=True)
+                o = "written"
+            elif op == "read":
+                pth = sb.path(st["path"], style)
+                sc = [_f(v) for v in st["scales"]]
+                ps = sc[0] if len(sc) == 1 else tuple(sc)
+                kw = {}
+                if st.get("invert"):
+                    kw["invert"] = True
+                last_read = reader.from_fits(file_path=pth, pixel_scales=ps, hdu=0, **kw)
+                o = self._hist_obs_read(obj, last_read)
+                if not is_mask:
+                    hd = last_read.header
+                    o["file_header"] = _cards(hd.header_sci_obj)
+            elif op == "bad_read":
+                try:
+                    if st["what"] == "missing":
+                        reader.from_fits(file_path=sb.path(["nowhere", "none.fits"], style),
+                                         pixel_scales=1.0, hdu=0)
+                    else:
+                        reader.from_fits(file_path=sb.path(st["path"], style), pixel_scales=1.0, hdu=3)
+                    o = "no_error"
+                except FileNotFoundError:
+                    o = "FileNotFoundError"
+                except IndexError:
+                    o = "IndexError"
+            elif op == "set_flip":
+                sb.set_flip(st["flip"])
+            elif op == "edit":
+                k = st["key"]
+                a[tuple(k) if isinstance(k, list) else k] = _f(st["value"])
+            elif op == "edit_where":
+                key = np.array([ch == "1" for ch in st["bits"]], dtype=bool).reshape(np.asarray(a.array).shape)
+                a[key] = _f(st["value"])
+            elif op == "edit_mask":
+                k = st["key"]
+                tgt = a if is_mask else a.mask
+                tgt[tuple(k) if isinstance(k, list) else k] = bool(st["value"])
+            elif op == "decoy":
+                for name in (self._DECOYS_MASK if is_mask else self._DECOYS_ARR):
+                    try:
+                        v = getattr(a, name)
+                        if name in ("derive_mask", "derive_indexes", "geometry"):
+                            for sub in ("all_false", "edge", "native_for_slim", "extent", "shape_native_scaled"):
+                                try:
+                                    getattr(v, sub)
+                                except Exception:
+                                    pass
+                    except Exception:
+                        pass
+            elif op == "derive":
+                how = st["how"]
+                c = _f(st["c"]) if "c" in st else None
+                if how == "add":
+                    a = a + c
+                elif how == "radd":
+                    a = c + a
+                elif how == "sub":
+                    a = a - c
+                elif how == "mul":
+                    a = a * c
+                elif how == "neg":
+                    a = -a
+                elif how == "native":
+                    a = a.native
+                elif how == "native_add":
+                    a = a.native + c
+                elif how == "slim":
+                    a = a.slim
+                elif how == "copy":
+                    a = a.copy()
+                elif how == "with_new_array":
+                    new = np.array([_f(v) for v in st["new"]], dtype="float64").reshape(np.asarray(a.array).shape)
+                    a = a.with_new_array(new)
+                elif how == "apply_mask":
+                    mj = case["mask"]
+                    m2 = np.array([ch == "1" for ch in st["bits"]], dtype=bool).reshape(mj["h"], mj["w"])
+                    a = a.apply_mask(aa.Mask2D(mask=m2, pixel_scales=tuple(_f(v) for v in st["scales"])))
+                else:
+                    raise ValueError(how)
+            elif op == "twin":
+                if is_mask:
+                    bits = None
+                    if "flip_bit" in st:
+                        cur = np.asarray(a).copy()
+                        k = st["flip_bit"]
+                        k = tuple(k) if isinstance(k, list) else k
+                        cur[k] = not cur[k]
+                        bits = "".join("1" if v else "0" for v in cur.ravel())
+                    else:
+                        bits = "".join("1" if v else "0" for v in np.asarray(a).ravel())
+                    a, mask_obj, _b = self._hist_build(aa, case, scales=st.get("scales") or qlist(a.pixel_scales),
+                                                       bits=bits)
+                else:
+                    cur_mask = a.mask
+                    bits = "".join("1" if v else "0" for v in np.asarray(cur_mask).ravel())
+                    sc = st.get("scales") or qlist(cur_mask.pixel_scales)
+                    vals = st["values"] if "values" in st else qlist(
+                        np.asarray(a.slim.array, dtype="float64").ravel())
+                    tw = dict(case)
+                    tw["store_native"] = bool(np.asarray(a.array).shape == np.asarray(cur_mask).shape)
+                    a, mask_obj, _b = self._hist_build(aa, tw, mask_obj=cur_mask if st.get("share_mask") else None,
+                                                       values=vals, scales=sc, bits=bits)
+            elif op == "adopt":
+                a = last_read
+            else:
+                raise ValueError(op)
+            out.append(o)
+            if buf0 is not None and not np.array_equal(buf, buf0):
+                intact = False
+        obs = {"steps": out}
+        if buf is not None:
+            obs["caller_buffer_intact"] = intact
+        return obs
+
+    # ------------------------------------------------------------------ history: model requests
+    def _hist_requests(self, case):
+        """[(step index, part, request)] for the observing steps: the Lean model's answer for a FRESH object in
+        the state the history has reached (the state bookkeeping is `_HistSim`'s, the values are the model's)"""
+        sim = _HistSim(case)
+        out = []
+        writes = []
+        for i, st in enumerate(case["steps"]):
+            op = st["op"]
+            if op == "hdu":
+                sim.apply(st)
+                out.append((i, "hdu", sim.model_request(sim.last_hdu, sim.flip, None)))
+                continue
+            if op == "hdu_data":
+                out.append((i, "hdu", sim.model_request(sim.last_hdu, sim.flip, None)))
+            elif op == "read_hdu":
+                out.append((i, "from_hdu", sim.model_request(sim.last_hdu, sim.flip, None)))
+            elif op == "read":
+                rec = sim.files.get("/".join(st["path"]))
+                if rec is not None:
+                    out.append((i, "from_file", sim.model_request(rec, sim.flip, st)))
+            elif op in ("write", "write_hdu"):
+                writes.append((i, {"path": st["path"], "overwrite": st.get("overwrite", True), "content": i + 1}))
+            sim.apply(st)
+        if writes:
+            out.append((None, "fs", {"op": "c16.fs_history", "dirs": [], "files": [],
+                                     "steps": [w for _, w in writes]}))
+        return out, [i for i, _ in writes]
+
+    def _hist_model_obs(self, case, responses):
+        plan, write_idx = self._hist_requests(case)
+        obj = case["obj"]
+        res = {}
+        for (i, part, _req), r in zip(plan, responses):
+            if "err" in r:
+                return {"err": r["err"]}
+            r = r["ok"]
+            if part == "fs":
+                for k, wi in enumerate(write_idx):
+                    res[wi] = r["results"][k] or "written"
+                continue
+            v = r[part]
+            if part == "from_file":
+                if obj == "mask2d":
+                    v = {"mask": v}
+                elif obj == "array1d":
+                    v = {"native": v}
+                elif obj == "mask1d":
+                    v = {"bits": v}
+            elif part == "from_hdu" and obj == "array1d":
+                v = {"native": v["native"], "scales": v["scales"]}
+            res[i] = v
+        return res
+
+    def _hist_compare(self, case, impl_obs, model_obs, cmp):
+        obj = case["obj"]
+        steps = impl_obs["steps"]
+        for i in sorted(model_obs):
+            got, want = steps[i], model_obs[i]
+            if isinstance(got, dict) and isinstance(want, dict):
+                got = {k: v for k, v in got.items() if k in want}
+            d = cmp.diff(got, want, f"$.steps[{i}]({case['steps'][i]['op']})")
+            if d:
+                return d
+        return None
+
+    def _hist_oracle(self, case, obs):
+        sim = _HistSim(case)
+        steps = obs["steps"]
+        if len(steps) != len(case["steps"]):
+            return False, "history was not run to its end"
+        for i, st in enumerate(case["steps"]):
+            want = sim.apply(st)
+            got = steps[i]
+            if want is None:
+                continue
+            why = _hist_diff(got, want)
+            if why:
+                hist = " -> ".join(s["op"] + (":" + s["how"] if "how" in s else "") for s in case["steps"][: i + 1])
+                return False, (f"history step {i} ({st['op']}): {why}; a fresh object in this state gives "
+                               f"something else.  History so far: {hist}")
+        if obs.get("caller_buffer_intact") is False:
+            return False, ("the caller-owned values array handed to the constructor was modified by an output / "
+                           "read / derivation step of the history")
+        return True, ""
+
+    # ================================================================== round 4: LARGE stream
+    BIG_CAP = 1 << 20  # largest hint served (2c+1 ≈ 2M pixels ≈ 16 MB per array)
+    BIG_HUGE = 300000  # pixels above which only two native-stored variants per size are generated
+    BIG_HEAVY = 20000  # pixels above which the reduced variant set / lean observation is used
+    BIG_EXPLICIT = 900  # up to this many pixels a large case is an ordinary, model-compared case
+
+    @staticmethod
+    def _factor(s):
+        """(h, w), h*w == s, 1 < h < w as square as possible; None if s is prime / too small"""
+        best = None
+        d = 2
+        while d * d <= s:
+            if s % d == 0 and d != s // d:
+                best = (d, s // d)
+            d += 1
+        return best
+
+    def generate_large(self, hints, rng):
+        seen = set()
+        hs = sorted(set(int(x) for x in hints if 2 <= int(x) <= self.BIG_CAP))
+        for c in hs:
+            sizes = [c - 1, c, c + 1, c + c // 3 + 1, 2 * c + 1]
+            # more non-multiples (a block size and a threshold usually come as two constants: sizes above the
+            # larger that are not a multiple of the smaller, with remainders other than 1)
+            if c <= self.BIG_HEAVY:
+                sizes += [c + 2, c + c // 2 + 3, 2 * c + 3, rng.randint(c + 3, 2 * c)]
+                for c1 in hs:
+                    if 2 <= c1 < c:
+                        sizes += [c + c1 // 2 + 1, c + c1 + 2, c + 2 * c1 + c1 // 3 + 1]
+            else:
+                sizes += [rng.randint(c + 2, 2 * c)]
+            for s in sizes:
+                if s < 1 or s in seen:
+                    continue
+                seen.add(s)
+                yield from self._large_for_size(rng, s, c)
+
+    def _large_for_size(self, rng, s, c):
+        def big(obj, h, w, dim, **kw):
+            case = {"tag": f"large_{dim}", "kind": "big", "obj": obj, "h": h, "w": w, "dim": dim, "hint": c,
+                    "size": s, "flip": kw.pop("flip", rng.random() < 0.5),
+                    "mask_rule": kw.pop("mask_rule", {"rule": "rand", "seed": rng.randrange(1 << 30), "p": "3/10"}),
+                    "vseed": rng.randrange(1 << 30), "scales": self._scales(rng),
+                    "store_native": kw.pop("store_native", rng.random() < 0.5),
+                    "path_style": rng.choice(["abs", "rel", "bare", "nested"])}
+            case.update(kw)
+            if h * w <= self.BIG_EXPLICIT and obj != "imaging":
+                return self._big_to_regular(case)
+            return case
+
+        shapes = [(1, s, "pixels_1xN"), (s, 1, "pixels_Nx1")]
+        f = self._factor(s)
+        if f:
+            shapes.append((f[0], f[1], "pixels_hxw"))
+            shapes.append((f[1], f[0], "pixels_wxh"))
+        flips = [False, True]
+        # without numba the library's slim <-> native loops cost ~5 µs per pixel and conversion: above
+        # HEAVY pixels fewer variants are generated and the read-back is observed as it is stored (`lean`)
+        heavy = s > self.BIG_HEAVY
+        if s > self.BIG_HUGE:
+            h, w = f if f else (s, 1)
+            yield big("array2d", h, w, "pixels_hxw" if f else "pixels_Nx1", flip=True, store_native=True, lean=True)
+            yield big("array2d", 1, s, "pixels_1xN_junk", flip=False, store_native=True, junk="arith", lean=True)
+            return
+        if heavy:
+            sn = rng.random() < 0.5
+            yield big("array2d", 1, s, "pixels_1xN", flip=True, store_native=sn, lean=True)
+            yield big("array2d", s, 1, "pixels_Nx1", flip=True, store_native=not sn, lean=True)
+            yield big("array2d", s, 1, "pixels_Nx1_nomask", flip=False, mask_rule={"rule": "none"},
+                      in_form="no_mask", lean=True)
+            if f:
+                h, w = f
+                yield big("array2d", h, w, "pixels_hxw", flip=True, store_native=True, lean=True)
+                yield big("array2d", w, h, "pixels_wxh", flip=False, store_native=False, lean=True)
+                yield big("mask2d", h, w, "pixels_hxw", flip=True, lean=True)
+                yield big("kernel2d", w, h, "pixels_wxh", flip=True, mask_rule={"rule": "none"},
+                          store_native=True, lean=True)
+                yield big("array2d", h, w, "pixels_hxw_junk", flip=True, store_native=True, junk="arith", lean=True)
+            else:
+                yield big("mask2d", s, 1, "pixels_Nx1", flip=True, lean=True)
+                yield big("array2d", s, 1, "pixels_Nx1_junk", flip=True, store_native=True, junk="arith", lean=True)
+            if s <= self.BIG_CAP:
+                yield big("array2d", s, 2, "rows", flip=True, store_native=True, lean=True)
+                yield big("array2d", 2, s, "cols", flip=True, store_native=True, lean=True)
+        else:
+            for k, (h, w, dim) in enumerate(shapes):
+                for flip in flips:
+                    yield big("array2d", h, w, dim, flip=flip)
+                yield big("mask2d", h, w, dim, flip=flips[k % 2])
+                yield big("kernel2d", h, w, dim, flip=flips[(k + 1) % 2], mask_rule={"rule": "none"})
+                yield big("array2d", h, w, dim + "_junk", flip=flips[k % 2], store_native=True, junk="arith")
+                yield big("array2d", h, w, dim + "_nomask", flip=flips[(k + 1) % 2], mask_rule={"rule": "none"},
+                          in_form="no_mask")
+            # the size as the number of ROWS / COLUMNS alone (a flip works row by row)
+            for flip in flips:
+                yield big("array2d", s, 3, "rows", flip=flip)
+                yield big("array2d", 2, s, "cols", flip=flip)
+            yield big("mask2d", s, 2, "rows", flip=True)
+        # the size as the number of UNMASKED pixels inside a larger frame
+        hh = max(2, int((s * 1.4) ** 0.5) + 1)
+        ww = max(2, (int(s * 1.4) // hh) + 2)
+        if hh * ww > s:
+            for flip in (flips if not heavy else [True]):
+                yield big("array2d", hh, ww, "unmasked", flip=flip,
+                          mask_rule={"rule": "count", "seed": rng.randrange(1 << 30), "n": s},
+                          store_native=flip, lean=heavy)
+        # 1-D length and 1-D unmasked count
+        yield {"tag": "large_1d", "kind": "big", "obj": "array1d", "h": 1, "w": s, "dim": "len1d", "hint": c,
+               "size": s, "flip": rng.random() < 0.5, "mask_rule": {"rule": "rand", "seed": rng.randrange(1 << 30),
+                                                                     "p": "3/10"},
+               "vseed": rng.randrange(1 << 30), "scales": [self._scales(rng, False)[0]],
+               "store_native": rng.random() < 0.5, "path_style": "abs"}
+        yield {"tag": "large_1d", "kind": "big", "obj": "array1d", "h": 1, "w": s + s // 2 + 1, "dim": "unmasked1d",
+               "hint": c, "size": s, "flip": rng.random() < 0.5,
+               "mask_rule": {"rule": "count", "seed": rng.randrange(1 << 30), "n": s},
+               "vseed": rng.randrange(1 << 30), "scales": [self._scales(rng, False)[0]],
+               "store_native": rng.random() < 0.5, "path_style": "rel"}
+        yield {"tag": "large_1d", "kind": "big", "obj": "mask1d", "h": 1, "w": s, "dim": "len1d", "hint": c,
+               "size": s, "flip": rng.random() < 0.5, "mask_rule": {"rule": "rand", "seed": rng.randrange(1 << 30),
+                                                                     "p": "1/2"},
+               "vseed": 0, "scales": [self._scales(rng, False)[0]], "store_native": False, "path_style": "abs"}
+        # Imaging with s frame pixels
+        if (f or s <= 64) and s <= 4 * self.BIG_HEAVY:
+            h, w = f if f else (1, s)
+            yield big("imaging", h, w, "imaging", mask_rule={"rule": "none"}, lean=heavy)
+        # counts: HDUs in a file / steps of a history / values of the hdu index
+        if 2 <= s <= 48:
+            arrays = []
+            for _ in range(s):
+                m, _mk = gen.random_mask(rng, rng.randint(1, 3), rng.randint(1, 3))
+                nun = sum(1 for r in m for b in r if not b)
+                arrays.append({"mask": mask_json(m), "values": qlist(self._values(rng, nun)),
+                               "scales": self._scales(rng)})
+            for read in sorted({s - 1, s // 2, 0}):
+                yield {"tag": "large_multi_hdu", "kind": "multi_hdu", "flip": rng.random() < 0.5, "arrays": arrays,
+                       "read": read, "scales": self._scales(rng), "reader": rng.choice(["array2d", "kernel2d"])}
+        if 2 <= s <= 80:
+            hc = self._history_case(rng)
+            steps = []
+            for k in range(s):
+                steps.append({"path": rng.choice(hc["steps"])["path"], "overwrite": rng.random() < 0.6,
+                              "content": 100 + k,
+                              "writer": rng.choice(["array2d", "mask2d", "kernel2d", "array1d", "mask1d"])})
+            hc["steps"] = steps
+            hc["tag"] = "large_fs_history"
+            yield hc
+
+    # ---- compact large cases ------------------------------------------------------------------------
+    @staticmethod
+    def _big_mask(case):
+        h, w = case["h"], case["w"]
+        r = case["mask_rule"]
+        if r["rule"] == "none":
+            return np.zeros((h, w), dtype=bool)
+        g = np.random.Generator(np.random.PCG64(r["seed"]))
+        if r["rule"] == "count":
+            m = np.ones(h * w, dtype=bool)
+            m[g.permutation(h * w)[: r["n"]]] = False
+            return m.reshape(h, w)
+        m = g.random((h, w)) < float(Fraction(r["p"]))
+        if m.all():
+            m[0, 0] = False
+        return m
+
+    @staticmethod
+    def _big_values(case, n):
+        """n doubles: position-coded integer part (a permutation of the pixels shows), 30 random fractional bits
+        (not representable in float32 / float16), random sign, a few extreme magnitudes"""
+        g = np.random.Generator(np.random.PCG64(case["vseed"]))
+        v = (np.arange(n, dtype="float64") + 1.0) + g.integers(1, 1 << 30, size=n).astype("float64") / float(1 << 30)
+        v = v * np.where(g.random(n) < 0.4, -1.0, 1.0)
+        if n >= 8:
+            pos = g.permutation(n)[:6]
+            v[pos] = [1.5e300, -2.5e-300, 5e-324, 0.1, -123456789.12345679, 3.0 * 2.0 ** 90]
+        return v
+
+    def _big_to_regular(self, case):
+        """a small 'large' case spelled out as an ordinary (model-compared) case"""
+        m = self._big_mask(case)
+        obj = case["obj"]
+        base = {"tag": case["tag"], "flip": case["flip"], "path_style": case["path_style"], "hint": case["hint"]}
+        if obj == "mask2d":
+            return {**base, "kind": "mask2d", "mask": mask_json(m.tolist()), "scales": case["scales"],
+                    "invert": bool(case["vseed"] & 1)}
+        n = int((~m).sum())
+        vals = qlist(self._big_values(case, n))
+        out = {**base, "kind": obj, "mask": mask_json(m.tolist()), "values": vals, "scales": case["scales"],
+               "store_native": bool(case.get("store_native")), "origin": ["0", "0"]}
+        if case.get("junk") and m.any():
+            out["values"] = qlist(np.floor(self._big_values(case, n)).clip(-1e6, 1e6))
+            out["store_native"] = True
+            out["junk"] = "arith"
+            out["junk_shift"] = "-3/2"
+            out["junk_values"] = []
+        elif case.get("in_form"):
+            out["in_form"] = case["in_form"]
+            out["store_native"] = False
+        return out
+
+    @staticmethod
+    def _digest(arr):
+        a = np.ascontiguousarray(np.asarray(arr, dtype="float64") + 0.0)
+        return [list(int(v) for v in a.shape), hashlib.sha1(a.tobytes()).hexdigest()]
+
+    @staticmethod
+    def _probe_idx(case, n):
+        if n == 0:
+            return []
+        g = np.random.Generator(np.random.PCG64(case.get("vseed", 0) ^ 0x5EED))
+        return sorted(set([0, n - 1, n // 2] + [int(v) for v in g.integers(0, n, size=9)]))
+
+    def _big_summary(self, case, arr):
+        a = np.asarray(arr, dtype="float64")
+        flat = a.ravel()
+        idx = self._probe_idx(case, flat.size)
+        return {"digest": self._digest(a), "probe": qlist(flat[idx]) if idx else [],
+                "finite": bool(np.isfinite(flat).all())}
+
+    def _impl_big(self, aa, case, sb):
+        obj = case["obj"]
+        m = self._big_mask(case)
+        flipw = case["flip"]
+        if obj in ("array1d", "mask1d"):
+            m1 = m.ravel()
+            s = _f(case["scales"][0])
+            mo = aa.Mask1D(mask=m1, pixel_scales=s)
+            if obj == "mask1d":
+                a = mo
+            else:
+                vals = self._big_values(case, int((~m1).sum()))
+                if case.get("store_native"):
+                    nat = np.full(m1.shape, 77.0)
+                    nat[~m1] = vals
+                    a = aa.Array1D(values=nat, mask=mo, store_native=True)
+                else:
+                    a = aa.Array1D(values=vals, mask=mo)
+            rd = aa.Mask1D if obj == "mask1d" else aa.Array1D
+            hdu = a.hdu_for_output
+            obs = {"hdu": {**self._big_summary(case, hdu.data), "header": _cards(hdu.header)}}
+            b = rd.from_primary_hdu(hdu)
+            path = self._paths(sb, case["path_style"], "big1.fits")
+            a.output_to_fits(file_path=path)
+            c = rd.from_fits(file_path=path, pixel_scales=s)
+            if obj == "mask1d":
+                obs["from_hdu"] = {**self._big_summary(case, np.asarray(b).astype("float64")),
+                                   "scales": qlist(b.pixel_scales)}
+                obs["from_file"] = self._big_summary(case, np.asarray(c).astype("float64"))
+            else:
+                obs["from_hdu"] = {**self._big_summary(case, b.native.array), "scales": qlist(b.pixel_scales)}
+                obs["from_file"] = self._big_summary(case, c.native.array)
+                obs["file_header"] = _cards(c.header.header_sci_obj)
+            return obs
+        sc = (_f(case["scales"][0]), _f(case["scales"][1]))
+        if obj == "imaging":
+            h, w = case["h"], case["w"]
+            data = self._big_values(case, h * w).reshape(h, w)
+            noise = np.abs(self._big_values({**case, "vseed": case["vseed"] + 1}, h * w)).reshape(h, w) + 0.5
+            im = aa.Imaging(data=aa.Array2D.no_mask(data, pixel_scales=sc),
+                            noise_map=aa.Array2D.no_mask(noise, pixel_scales=sc),
+                            psf=aa.Kernel2D.no_mask(np.array([[float(v) for v in r] for r in _unit_kernel(3, 3)]),
+                                                    pixel_scales=sc))
+            dp, npth, pp = (self._paths(sb, case["path_style"], n) for n in ("data.fits", "noise.fits", "psf.fits"))
+            im.output_to_fits(data_path=dp, psf_path=pp, noise_map_path=npth)
+            im2 = aa.Imaging.from_fits(pixel_scales=sc, data_path=dp, noise_map_path=npth, psf_path=pp)
+            return {"data": {**self._big_summary(case, self._big_native(case, im2.data)),
+                             "scales": qlist(im2.data.pixel_scales)},
+                    "noise": {**self._big_summary(case, self._big_native(case, im2.noise_map)),
+                              "scales": qlist(im2.noise_map.pixel_scales)},
+                    "psf": _read2d(im2.psf)}
+        mask = aa.Mask2D(mask=m, pixel_scales=sc)
+        if obj == "mask2d":
+            a = mask
+            rd = aa.Mask2D
+        else:
+            rd = aa.Kernel2D if obj == "kernel2d" else aa.Array2D
+            vals = self._big_values(case, int((~m).sum()))
+            if case.get("junk"):
+                vals = np.floor(vals).clip(-1e6, 1e6)
+                nat = np.full(m.shape, 55.0)
+                nat[~m] = vals + 2.5
+                a = rd(values=nat, mask=mask, store_native=True) - 2.5
+            elif case.get("in_form") == "no_mask":
+                a = rd.no_mask(values=vals.reshape(m.shape), pixel_scales=sc)
+            elif case.get("store_native"):
+                nat = np.full(m.shape, 77.0)
+                nat[~m] = vals
+                a = rd(values=nat, mask=mask, store_native=True)
+            else:
+                a = rd(values=vals, mask=mask)
+        hdu = a.hdu_for_output
+        obs = {"hdu": {**self._big_summary(case, hdu.data), "header": _cards(hdu.header)}}
+        b = rd.from_primary_hdu(hdu)
+        path = self._paths(sb, case["path_style"], "big.fits")
+        a.output_to_fits(file_path=path)
+        if obj == "mask2d":
+            c = rd.from_fits(file_path=path, pixel_scales=sc)
+            obs["from_hdu"] = {**self._big_summary(case, np.asarray(b).astype("float64")),
+                               "scales": qlist(b.pixel_scales)}
+            obs["from_file"] = {**self._big_summary(case, np.asarray(c).astype("float64")),
+                                "scales": qlist(c.pixel_scales)}
+            return obs
+        c = rd.from_fits(file_path=path, pixel_scales=sc, hdu=0)
+        for name, r in (("from_hdu", b), ("from_file", c)):
+            obs[name] = {**self._big_summary(case, self._big_native(case, r)), "scales": qlist(r.pixel_scales),
+                         "masked": bool(np.asarray(r.mask).any()),
+                         "shape": [int(v) for v in r.shape_native]}
+            if not case.get("lean"):
+                obs[name]["slim_digest"] = self._digest(np.asarray(r.slim.array).reshape(r.shape_native))
+        obs["file_headers"] = {"sci": _cards(c.header.header_sci_obj), "hdu": _cards(c.header.header_hdu_obj)}
+        return obs
+
+    @staticmethod
+    def _big_native(case, r):
+        """the native values of a read-back (unmasked) array.  `lean` cases (> BIG_HEAVY pixels) take the array
+        as it is stored — slim order of an unmasked array IS row-major native order — instead of paying for
+        `.native`'s pure-Python index loops"""
+        if case.get("lean"):
+            arr = np.asarray(r.array, dtype="float64")
+            return arr.reshape(tuple(int(v) for v in r.shape_native))
+        return r.native.array
+
+    def _big_expected(self, case):
+        """(expected native array, expected array in the HDU)"""
+        obj = case["obj"]
+        m = self._big_mask(case)
+        if obj in ("array1d", "mask1d"):
+            m = m.ravel()
+        if obj in ("mask2d", "mask1d"):
+            nat = m.astype("float64")
+        else:
+            vals = self._big_values(case, int((~m).sum()))
+            if case.get("junk"):
+                vals = np.floor(vals).clip(-1e6, 1e6)
+            nat = np.zeros(m.shape)
+            nat[~m] = vals
+        written = np.flipud(nat) if (case["flip"] and nat.ndim == 2) else nat
+        return nat, written
+
+    def _big_check(self, case, name, got, want):
+        flat = np.asarray(want, dtype="float64").ravel()
+        idx = self._probe_idx(case, flat.size)
+        if got["digest"][0] != list(np.asarray(want).shape):
+            return f"{name}: shape {got['digest'][0]} != {list(np.asarray(want).shape)}"
+        if not got["finite"]:
+            return f"{name}: non-finite values"
+        wp = qlist(flat[idx]) if idx else []
+        if got["probe"] != wp:
+            k = next(i for i, (a, b) in enumerate(zip(got["probe"], wp)) if a != b)
+            return (f"{name}: value at flat index {idx[k]} is {float(Fraction(got['probe'][k]))!r}, "
+                    f"written {float(Fraction(wp[k]))!r}")
+        if got["digest"] != self._digest(want):
+            return f"{name}: the {flat.size} values are not identical to the written ones (digest differs)"
+        return None
+
+    def _big_oracle(self, case, obs):
+        obj = case["obj"]
+        scales = [Fraction(v) for v in case["scales"]]
+        if obj == "imaging":
+            h, w = case["h"], case["w"]
+            data = self._big_values(case, h * w).reshape(h, w)
+            noise = np.abs(self._big_values({**case, "vseed": case["vseed"] + 1}, h * w)).reshape(h, w) + 0.5
+            for k, want in (("data", data), ("noise", noise)):
+                d = self._big_check(case, k, obs[k], want)
+                if d:
+                    return False, d
+                if [Fraction(v) for v in obs[k]["scales"]] != scales:
+                    return False, f"{k}: pixel scales differ"
+            d = self._check_read2d("psf", obs["psf"], 3, 3, [v for r in _unit_kernel(3, 3) for v in r], scales)
+            return (False, d) if d else (True, "")
+        nat, written = self._big_expected(case)
+        d = self._big_check(case, "HDU data" + (" (flipped)" if case["flip"] and nat.ndim == 2 else ""), obs["hdu"],
+                            written)
+        if d:
+            return False, d
+        hs = self._scales_from_cards(obs["hdu"]["header"])
+        if hs is None or hs[: len(scales)] != scales:
+            return False, f"HDU header encodes pixel scales {hs}, object has {scales}"
+        for name in ("from_hdu", "from_file"):
+            d = self._big_check(case, name, obs[name], nat)
+            if d:
+                return False, d
+            if "scales" in obs[name] and [Fraction(v) for v in obs[name]["scales"]] != scales:
+                return False, f"{name}: pixel scales {obs[name]['scales']} != written"
+            if "slim_digest" in obs[name] and obs[name]["slim_digest"] != self._digest(nat):
+                return False, f"{name}: slim values of the unmasked read-back array differ"
+            if obs[name].get("masked"):
+                return False, f"{name}: read-back array is masked"
+            if "shape" in obs[name] and obs[name]["shape"] != list(nat.shape):
+                return False, f"{name}: shape {obs[name]['shape']} != {list(nat.shape)}"
+        if "file_headers" in obs:
+            for k in ("sci", "hdu"):
+                if self._scales_from_cards(obs["file_headers"][k]) != scales:
+                    return False, f"header ({k}) of the file does not carry the pixel scales written"
+        if "file_header" in obs and (self._scales_from_cards(obs["file_header"]) or [None])[0] != scales[0]:
+            return False, "1-D file header does not carry the pixel scale"
+        return True, ""
+
+    def _big_shrink(self, case):
+        h, w = case["h"], case["w"]
+        for dim, v in (("h", h), ("w", w)):
+            step = v // 2
+            while step >= 1:
+                if v - step >= 1:
+                    c2 = {**case, dim: v - step}
+                    r = c2["mask_rule"]
+                    if r["rule"] == "count":
+                        c2["mask_rule"] = {**r, "n": min(r["n"], c2["h"] * c2["w"] - 1)}
+                        if c2["mask_rule"]["n"] < 1:
+                            step //= 2
+                            continue
+                    yield c2
+                step //= 2
+        if case.get("mask_rule", {}).get("rule") != "none" and case["obj"] not in ("mask2d", "mask1d") \
+                and not case.get("junk"):
+            yield {**case, "mask_rule": {"rule": "none"}}
+        if case.get("path_style") != "abs":
+            yield {**case, "path_style": "abs"}
 
     # ------------------------------------------------------------------ implementation
     def _paths(self, sb, style, name="x.fits"):
@@ -681,12 +2210,24 @@ class C16(PropertyCheck):
             im.output_to_fits(data_path=dp, psf_path=pp, noise_map_path=npth)
         except Exception as e:
             second = _err_kind(e)
+        if case.get("edit"):
+            im.data[case["edit"]["data"][0]] = _f(case["edit"]["data"][1])
+            im.noise_map[case["edit"]["noise"][0]] = _f(case["edit"]["noise"][1])
         im.output_to_fits(data_path=dp, psf_path=pp, noise_map_path=npth, overwrite=True)
         im2 = aa.Imaging.from_fits(pixel_scales=sc, data_path=dp, noise_map_path=npth, psf_path=pp)
         obs = {"second_write": second, "data": _read2d(im2.data), "noise": _read2d(im2.noise_map)}
         if psf is not None:
             obs["psf"] = _read2d(im2.psf)
         return obs
+
+    @staticmethod
+    def _imaging_values(case, k):
+        """the data / noise values the final (overwriting) call must write: with the in-place edit, if any"""
+        vals = list(case[k])
+        if case.get("edit"):
+            i, v = case["edit"][k]
+            vals[i] = v
+        return vals
 
     # content of history step `cid` written through writer `w`: small, asymmetric, encodes cid
     def _content(self, aa, cid, writer):
@@ -757,6 +2298,10 @@ class C16(PropertyCheck):
     # ------------------------------------------------------------------ model
     def model_requests(self, case, impl_obs):
         kind = case["kind"]
+        if kind == "big":
+            return []  # judged by the oracle alone (vectorised, exact)
+        if kind == "hist":
+            return [r for _i, _part, r in self._hist_requests(case)[0]]
         if kind in ("array2d", "kernel2d"):
             req = {"op": "c16.array2d", "mask": case["mask"], "values": case["values"],
                    "scales": case["scales"], "flip": case["flip"]}
@@ -779,8 +2324,8 @@ class C16(PropertyCheck):
         if kind == "imaging":
             h, w = case["shape"]
             full = {"h": h, "w": w, "bits": "0" * (h * w)}
-            reqs = [{"op": "c16.array2d", "mask": full, "values": case[k], "scales": case["scales"],
-                     "flip": case["flip"]} for k in ("data", "noise")]
+            reqs = [{"op": "c16.array2d", "mask": full, "values": self._imaging_values(case, k),
+                     "scales": case["scales"], "flip": case["flip"]} for k in ("data", "noise")]
             if case["with_psf"]:
                 kh, kw = case["psf_shape"]
                 reqs.append({"op": "c16.array2d", "mask": {"h": kh, "w": kw, "bits": "0" * (kh * kw)},
@@ -806,6 +2351,8 @@ class C16(PropertyCheck):
             if "err" in r:
                 return {"err": r["err"]}
         kind = case["kind"]
+        if kind == "hist":
+            return self._hist_model_obs(case, responses)
         r = responses[0]["ok"]
         if kind in ("array2d", "kernel2d"):
             return r
@@ -828,6 +2375,10 @@ class C16(PropertyCheck):
         if isinstance(impl_obs, dict) and "err" in impl_obs and len(impl_obs) <= 2:
             return cmp.diff(impl_obs, model_obs)
         kind = case["kind"]
+        if kind == "hist":
+            if isinstance(model_obs, dict) and "err" in model_obs:
+                return f"model: {model_obs}"
+            return self._hist_compare(case, impl_obs, model_obs, cmp)
         io = dict(impl_obs)
         if kind == "mask2d":
             for k in ("resized", "resized_ref", "from_file_scales"):
@@ -873,6 +2424,10 @@ class C16(PropertyCheck):
             return False, f"implementation raised {obs}"
         kind = case["kind"]
         flip = case["flip"]
+        if kind == "hist":
+            return self._hist_oracle(case, obs)
+        if kind == "big":
+            return self._big_oracle(case, obs)
         if kind in ("array2d", "kernel2d"):
             mj = case["mask"]
             h, w = mj["h"], mj["w"]
@@ -960,7 +2515,8 @@ class C16(PropertyCheck):
             scales = [Fraction(v) for v in case["scales"]]
             if obs["second_write"] != "exists_no_overwrite":
                 return False, f"second write without overwrite did not fail (got {obs['second_write']})"
-            for k, vals in (("data", case["data"]), ("noise", case["noise"])):
+            for k, vals in (("data", self._imaging_values(case, "data")),
+                            ("noise", self._imaging_values(case, "noise"))):
                 d = self._check_read2d(k, obs[k], h, w, [Fraction(v) for v in vals], scales)
                 if d:
                     return False, d
@@ -1000,6 +2556,10 @@ class C16(PropertyCheck):
         kind = case["kind"]
         if case.get("junk"):
             return True
+        if kind == "hist":
+            return sum(1 for s in case["steps"] if s["op"] in ("hdu", "read_hdu", "read", "write")) >= 2
+        if kind == "big":
+            return case["h"] * case["w"] >= 2
         if kind in ("array2d", "kernel2d", "mask2d"):
             mj = case["mask"]
             h, w = mj["h"], mj["w"]
@@ -1025,6 +2585,22 @@ class C16(PropertyCheck):
 
     def shrink(self, case):
         kind = case["kind"]
+        if kind == "big":
+            yield from self._big_shrink(case)
+            return
+        if kind == "hist":
+            steps = case["steps"]
+            # a prefix of a history is a history; then single steps that nothing later depends on
+            for n in (len(steps) // 2, len(steps) - 1):
+                if 1 <= n < len(steps):
+                    yield {**case, "steps": steps[:n]}
+            for i in range(len(steps) - 1):
+                c2 = {**case, "steps": steps[:i] + steps[i + 1:]}
+                if _HistSim.valid(c2):
+                    yield c2
+            if case.get("path_style") != "abs":
+                yield {**case, "path_style": "abs"}
+            return
         if kind == "fs_history":
             steps = case["steps"]
             for i in range(len(steps)):
@@ -1055,6 +2631,8 @@ class C16(PropertyCheck):
 
     def theorems_for(self, case):
         kind = case["kind"]
+        if kind in ("hist", "big"):
+            kind = {"array1d": "array1d", "mask1d": "mask1d", "mask2d": "mask2d"}.get(case["obj"], "array2d")
         return {
             "fs_history": ["C16.history_semantics", "C16.output_overwrite_semantics", "C16.output_error_iff",
                            "C16.bare_name_cwd"],
